@@ -232,10 +232,10 @@ ADDENDA = {
     "C07": "Also decides: (R07.e) actual parameters are marked consumed only when paired with a named expected parameter; by model extraction (R07.f/g): Signature.can_assign is interpreted from its AST for every pair of def-legal signatures (expected <= 3/4 parameters, actual <= 3 under every naming from a pool of 4; 334,952 / 959,896 pairs) - every accepted pair must let each call shape (<= 3 positionals, <= 3 keywords) that binds to the expected signature bind to the actual one, and every argument flow of a commonly bound shape must have had its annotation pair compared.",
     "C08": "By model extraction: (R08.f) OverloadedSignature.check_call and _unite_rets are interpreted from their AST with overloads as model objects following the documented single-overload contract, for every set of 2-3 (thorough 4) overloads x every argument (atom, union, Any): plain arguments are typed by the first accepting overload and diagnosed iff none accepts; unions are accepted iff every member is, with each member's own result in the type; Any never selects one overload's type when several match. Also decides: (R08.e) union decomposition for positional and keyword arguments alike.",
     "C09": "Also decides: (R09.e) the scope synthesised for a suppressing with-block keeps LEAVES_LOOP; by model extraction (R09.f): the control-flow visitors and the scope machinery are interpreted from their AST in the collecting phase on ~1000 generated function bodies (if / while / for with else, break, continue, return, try / except / else / finally, suppressing and non-suppressing with blocks, dead statements after jumps, opaque calls, one level of nesting); for every reachable use of a local the recorded definitions lie between the strict and the liberal reaching-definitions sets of an independent analysis, and the unbound state is recorded iff some path leaves the name unbound; (R09.g) _visit_function_body with both phases, visit_Nonlocal / visit_Global and the value resolution are interpreted on 750 functions with a nested function that reads or assigns names of the enclosing function or the module and is called at known points: the values obtained in the checking phase lie between strict and liberal reaching definitions, and on R09.f's programs the checking phase obtains exactly the recorded definitions.",
-    "C10": "Also decides: (R10.4) caches shared between files are keyed by everything the cached value depends on; (R10.5) unify_bounds_maps / intersect_bounds_maps interpreted on sequences of up to three maps: inputs unchanged, no list shared with an input, repetition stable.",
+    "C10": "Also decides: (R10.4) caches shared between files are keyed by everything the cached value depends on; (R10.5) unify_bounds_maps / intersect_bounds_maps interpreted on sequences of up to three maps: inputs unchanged, no list shared with an input, repetition stable; (R10.6) memo caches on long-lived objects are keyed by every non-context parameter the memoised method reads.",
     "C11": "Also decides, by model extraction: (R11.7) show_error, has_file_level_ignore, _lines, is_enabled and get_unused_ignores are interpreted from their AST on every file of <= 3 lines from 11 line kinds x every sequence of <= 2 raw diagnostics x every set of enabled codes (~83,000 runs): reported = enabled and not suppressed by a documented ignore form; used / unused ignore comments are exactly those that did / did not suppress something; the used set does not depend on the enabled codes; (R11.8) is_error_code_enabled interpreted on views of one Options object for pairs of modules in both orders: every answer equals the layered configuration, whatever was asked before.",
     "C12": "Also decides: (R12.5) format()/payload operations on user objects run under an exception guard; (R12.6) payload comparisons go through safe_equals or an except clause; (R12.7) a container of the checker indexed by a literal payload is inside a sufficient try, behind a len() range check or behind a membership test; (R12.8) metaclass methods (mro, __subclasses__) are not called through a class object of the checked program; (R12.9) no can_assign application of the container model (unhashable objects, large unions) raises; (R12.10) no list / dict / set is stored in a hashed field of a Value / Bound / Extension class with generated __init__ and __hash__.",
-    "C13": "Also decides: (R13.3) coroutine wrapping of async functions is conditioned on async-ness only in both signature builders; (R13.4) the runtime route never reads typing's shared ForwardRef evaluation cache; by model extraction (R13.5): the AST route, the string route and the runtime route of annotation evaluation are interpreted from their AST on ~800 annotation expressions of the typing vocabulary (the runtime form is built by CPython from the same expression) and must yield equal values and agree on rejection.",
+    "C13": "Also decides: (R13.3) coroutine wrapping of async functions is conditioned on async-ness only in both signature builders; (R13.4) the runtime route never reads typing's shared ForwardRef evaluation cache; by model extraction (R13.5): the AST route, the string route and the runtime route of annotation evaluation are interpreted from their AST on ~800 annotation expressions of the typing vocabulary (the runtime form is built by CPython from the same expression) and must yield equal values and agree on rejection; (R13.6) compute_parameters on the def node and ArgSpecCache.from_signature on CPython's inspect.Signature of the same def interpreted on ~800 def headers: names, kinds, defaults, annotations and return annotation agree.",
     "C14": "Also decides: hand-written hashes canonicalise unordered fields; identity returns of substitute_typevars are guarded against type variables; by model extraction (R14.4): unite_values / flatten_values / annotate_value interpreted from their AST on 14 model values with the real classes' equality and hash, every pair and triple: idempotent, commutative, associative, never nests, Never identity, members = operands' members, equal alternatives merged; (R14.5) MultiValuedValue.__eq__ interpreted on unions of up to 12 members and their reorderings: equality is order-insensitive and member-sensitive.",
     "C15": "Also decides, by model extraction: (R15.7) solve() and remove_redundant_solutions() are interpreted from their AST over a five-element lattice of types (assignability = inclusion, unite_values = union) for every set of up to 4 (quick) / 5 (thorough) lower/upper/constraint bounds in every order: a returned type satisfies every bound and the accepted-vs-diagnosed verdict is order independent; (R15.8) every LowerBound / UpperBound built for a type variable outside the solver carries the variable's inherent bounds (or the variable is a ParamSpec).",
     "C16": "By model extraction: (R16.h) _apply_changes_to_lines interpreted from its AST on every file of <= 6 lines x every deletion set x additions equals the documented splice, first change only; (R16.i) the interactive fixer's patch loop interpreted for every sequence of <= 3 changes gives the same file as the splices; (R16.j) iterating add-ignores on 2,280 small files with 0-2 diagnostic codes per line reaches a fixpoint with nothing reported, unchanged code lines, no unused inserted comment, and each inserted comment suppressing exactly one diagnostic. Also decides: (R16.f) whole-assignment deletions only for a single non-pattern target; (R16.k) NodeTransformer / ReplaceNodeTransformer.generic_visit interpreted on real syntax trees (18 statements covering every list-valued and optional field shape) for every expression node as the node to replace: exactly that node differs and the original is not mutated.",
